@@ -236,6 +236,8 @@ def run(rep, br, proofs, rng, tier):
                 fails.append((c, "an import %s was not reported at compile time: %s" % (c["expect"], out[:200])))
             else: cyc += 1
             continue
+        if out.startswith("(modgraph-reused-vm"):
+            fails.append((c, "on a VM that ran another program before (SetBytecode, no Clear) the program does not load its own modules: %s" % out[:400])); continue
         if not out.startswith("(modgraph"):
             fails.append((c, "unexpected: " + out[:300])); continue
         sx = vlib.parse_sexp(out)
